@@ -4,6 +4,7 @@ From Coq Require Import List ZArith Bool Arith.
 From Coq Require Import PrimFloat.
 From PV Require Import IC10.Values IC10.Machine IC10.FloatAlg Valid.Resolve Valid.ResolveProofs Valid.ResolveSem.
 From PV Require Valid.ResolveCalls.
+From PV Require Model.UnusedLabels.
 Import ListNotations.
 
 (* (b) reference renumbering: for EVERY program and label, the number that replaces the label
@@ -89,3 +90,26 @@ Theorem C05_label_free_runs_with_leaf_calls_are_runs_of_the_labelled_program :
     hist b = hist a /\ st b = st a /\ mem b = mem a /\
     regs b = ResolveCalls.map_regs FloatAlg q (regs a) /\ pc b = instrs_before q (pc a).
 Proof. exact ResolveCalls.resolve_behaviour_with_calls_converse_float. Qed.
+
+(* (e) remove_unused_labels (labelled mode): Model/UnusedLabels.v is the function line by line (`UnusedLabels.rul`), compared with
+   the real function in every run.  For EVERY program text: the result is the program with some lines left out;
+   only lines that read `<label>:` for a defined label that no token of any line mentions are left out; no
+   instruction line is ever left out ... *)
+Theorem C05_unused_label_removal_drops_only_unreferenced_label_lines : forall p l,
+  UnusedLabels.sublist (UnusedLabels.rul p) p /\
+  (In l p -> UnusedLabels.ends_colon (UnusedLabels.raw l) = false -> In l (UnusedLabels.rul p)) /\
+  (In l p -> ~ In l (UnusedLabels.rul p) ->
+     UnusedLabels.ends_colon (UnusedLabels.raw l) = true /\ In (UnusedLabels.drop_last (UnusedLabels.raw l)) (UnusedLabels.labels p) /\
+     forall l', In l' p -> ~ In (UnusedLabels.drop_last (UnusedLabels.raw l)) (UnusedLabels.toks l')).
+Proof.
+  intros p l. split; [apply UnusedLabels.rul_sublist|]. split.
+  - apply UnusedLabels.rul_keeps_instructions.
+  - apply UnusedLabels.rul_drops_only_unreferenced_labels.
+Qed.
+
+(* ... so it creates no dangling reference: a label defined in the input (definition lines unindented, as the
+   emitter writes them) and mentioned by any token of a line of the result -- with or without a comment behind
+   it -- is still defined in the result *)
+Theorem C05_unused_label_removal_creates_no_dangling_reference : forall p x l',
+  UnusedLabels.plain_defs p -> In x (UnusedLabels.labels p) -> In l' (UnusedLabels.rul p) -> In x (UnusedLabels.toks l') -> In x (UnusedLabels.labels (UnusedLabels.rul p)).
+Proof. exact UnusedLabels.rul_creates_no_dangling_reference. Qed.
